@@ -21,7 +21,9 @@ RULE = ("schema-first logical documents (nested objects, arrays, arrays of objec
         "maps, seq / tuple, header views, Option / Property, mis-hints) x 5 entry points; oracle = the EXTRACTED TextDeSpec2.spec_value2 "
         "(true for the slice / tape / ObjectReader paths, false for the reader paths where it fits).  "
         "hints: 2000 documents `v <op> value  w = scalar` x every deserialize_* method (incl. char, str, bytes, byte_buf, unit, unit_struct, "
-        "newtype_struct, tuple_struct, i128, u128, identifier) with a recording visitor x 5 entry points; oracle = a Python reading of the property text")
+        "newtype_struct, tuple_struct, i128, u128, identifier) with a recording visitor x 5 entry points; oracle = a Python reading of the property text; "
+        "hint_model: the same documents and hints, the FIRST deserializer step (which visit_* call with which payload) of the extracted "
+        "TextDeTape.tape_visit / TextDeStream.stream_visit against the implementation (slice path / reader path)")
 TRUSTED = ["walk_model: the extracted walks are fed the implementation's own tape (tt.parse) resp. reader tokens (tr.slice, chunking-independent by C07) of each text; Scalar::to_f64 is the extracted ScalarF64.to_f64_bits, the float casts of serde's visitors are the machine's (OCaml glue)",
            "serde's primitive Deserialize impls (u8..u64, i8..i64, f32, f64, bool, String, IgnoredAny) and serde-derive's code for "
            "jomini::text::Property<T> are used as they are (library behaviour, exercised not verified)",
